@@ -51,27 +51,22 @@ def run(res, tier):
     if not rcs:
         raise AnalysisBroken('DataUnflattenerHelper::ReadCString (checked variant) not instantiated in the analysed units')
     f = rcs[0]
-    loops = [n for n in f.walk() if n['k'] == 'WhileStmt']
+    loops = [n for n in f.walk() if n['k'] in ('WhileStmt', 'ForStmt')]
     bounded = False
     limit = None
     for lp in loops:
         cond = lp.role('cond')
-        atoms = []
-        def rec(n):
-            n = A.strip_casts(n)
-            if n['k'] == 'BinaryOperator' and n.get('op') == '&&':
-                rec(n['ch'][0]); rec(n['ch'][1])
-            else:
-                atoms.append(n)
-        rec(cond)
-        for a in atoms:
-            if a['k'] == 'BinaryOperator' and a.get('op') == '<' and 'd' in A.strip_casts(a['ch'][0]) and 'd' in A.strip_casts(a['ch'][1]):
-                lim = A.strip_casts(a['ch'][1])['d']
-                for v in f.walk():
-                    if v['k'] == 'VarDecl' and v['d'] == lim and v['ch'] and any(x.get('n') == '_readFrom' for x in v['ch'][0].walk()) and \
-                            any('d' in x and x['k'] == 'DeclRefExpr' for x in v['ch'][0].walk()):
-                        bounded = True
-                        limit = lim
+        if cond is None:
+            continue
+        for (a, t) in A.implied_atoms(cond, True):
+            for (l_, op_, r_) in A.rel_forms(a, t):
+                if op_ == '<' and 'd' in l_ and 'd' in r_:
+                    lim = r_['d']
+                    for v in f.walk():
+                        if v['k'] == 'VarDecl' and v['d'] == lim and v['ch'] and any(x.get('n') == '_readFrom' for x in v['ch'][0].walk()) and \
+                                any('d' in x and x['k'] == 'DeclRefExpr' for x in v['ch'][0].walk()):
+                            bounded = True
+                            limit = lim
     res.ob('READER', f.where(), 'ReadCString scans while (cursor < _readFrom + bytesAvailable)', bounded, function=f.q, key='READER|%s|bounded-scan' % f.q,
            message='ReadCString\'s scan for the terminator is no longer bounded by the bytes available: unterminated input is read past the end of the buffer')
     # not found => status error, return without Advance
@@ -80,8 +75,9 @@ def run(res, tier):
         if blk.cond is None or blk.cond not in f.nodes or len(blk.succ) != 2:
             continue
         n = A.strip_casts(f.nodes[blk.cond])
-        if n['k'] == 'BinaryOperator' and n.get('op') == '==' and limit is not None and limit in [A.strip_casts(x).get('d') for x in n['ch']]:
-            tgt = blk.succ[0]
+        eqs = [(tr_, l_, r_) for tr_ in (True, False) for (l_, op_, r_) in A.rel_forms(n, tr_) if op_ == '==' and limit is not None and r_.get('d') == limit]
+        if eqs:
+            tgt = blk.succ[0 if eqs[0][0] else 1]       # the edge on which cursor == limit (terminator not found)
             reach = C.reachable_blocks(f, tgt)
             sets = adv = False
             for b in reach:
